@@ -111,10 +111,11 @@ type rt struct {
 	srcCmd     chan srcCmd
 	srcInc     int
 	startedInc int
-	stall   map[int64]bool // free mode: nodes whose first call blocks until released
-	slow    map[int64]bool // free mode: slow consumers (a short sleep per call)
-	stallCh chan struct{}
-	srcEnded chan struct{}
+	srcNil     bool
+	stall      map[int64]bool // free mode: nodes whose first call blocks until released
+	slow       map[int64]bool // free mode: slow consumers (a short sleep per call)
+	stallCh    chan struct{}
+	srcEnded   chan struct{}
 	script     []srcPhase // free mode: per incarnation
 	errs       map[string]*errInfo
 	errSeq     int
@@ -499,7 +500,19 @@ func (s *hsrc) Setup(cfg map[string]string, ch chan firebolt.Event) error {
 	return nil
 }
 func (s *hsrc) Receive(msg fbcontext.Message) error { return nil }
-func (s *hsrc) Shutdown() error                     { return nil }
+
+// Shutdown is what Executor.Shutdown() calls: a well-behaved source then returns nil from Start.
+func (s *hsrc) Shutdown() error {
+	if s.r.lock {
+		go func() {
+			select {
+			case s.r.srcCmd <- srcCmd{kind: 4, ack: make(chan struct{})}:
+			case <-time.After(3 * time.Second):
+			}
+		}()
+	}
+	return nil
+}
 func (s *hsrc) Start() error {
 	s.r.log(sx.T(sx.L(2), sx.L(int64(s.inc))))
 	s.r.mu.Lock()
@@ -514,6 +527,9 @@ func (s *hsrc) Start() error {
 				close(c.ack)
 			case 4:
 				s.r.log(sx.T(sx.L(3), sx.L(int64(s.inc)), sx.L(1)))
+				s.r.mu.Lock()
+				s.r.srcNil = true
+				s.r.mu.Unlock()
 				close(c.ack)
 				return nil
 			case 5:
